@@ -949,6 +949,8 @@ def run(tier, seed):
         cov = _extra(r, cases, obs)
         from . import c14init      # several pools over one vips directory: initialize() of one and the owners of another
         cov.update(c14init.stage(r, seed, 300 if tier == 'quick' else 8000))
+        from . import c14frame     # the real resource-service framework: start-up replay, inotify loop, real client
+        cov.update(c14frame.stage(r, seed, 150 if tier == 'quick' else 2500))
         return cov
     core.standard_run(PID, tier, seed, {
         'model_vos': ['Node/Owners'], 'table_sections': ['source_shape'],
@@ -974,6 +976,9 @@ def run(tier, seed):
 
 
 def replay_case(case):
+    if isinstance(case, dict) and case.get('engine') == 'E-node-c14frame':
+        from . import c14frame
+        return c14frame.replay_case(case)
     if isinstance(case, dict) and case.get('engine') == 'E-node-c14init':
         from . import c14init
         return c14init.replay_case(case)
